@@ -143,7 +143,7 @@ class Interp:
                 sig = hash(tuple(self.trace))
                 if sig not in self.signatures:
                     self.signatures.add(sig)
-                    if len(self.samples) < 8 and self.concrete is None:
+                    if len(self.samples) < 6 and self.concrete is None:
                         self.samples.append(dict(trace=list(self.trace), witness=[[n, x] for n, x in (self.current_model() or [])]))
             except Infeasible:
                 self.stats['infeasible'] += 1
